@@ -518,6 +518,9 @@ int SimulateMsp430::put_data(
     return 0;
   }
 
+  // The constant generator (r3) as an indexed destination has no address.
+  if (ea == -1) { return -1; }
+
   if (bw == BW_WORD)
   {
     ram_write16(ea, data);
